@@ -915,6 +915,11 @@ func (w *vWorld) op(ws []string) (string, bool) {
 	if s == nil && ws[0] != "unload" && ws[0] != "timer" && ws[0] != "restart" {
 		return "", false
 	}
+	if ws[0] != "restart" {
+		// a crash snapshot is what the database held when the process died during the PREVIOUS request;
+		// it is meaningful only for a restart which follows immediately
+		w.ad.CrashSnap = nil
+	}
 	switch ws[0] {
 	case "newgrp":
 		// newgrp S1 [chan] auth=.. anon=.. want=.. priv=.. pub=.. tags=a,b
